@@ -287,6 +287,15 @@ fn unit_case(rng: &mut Rng, report: &mut Report, idx: usize) -> String {
         _ => Decimal::ZERO,
     };
     let abort = rng.chance(1, 12);
+    let nops = rng.range(3, 45) as usize;
+    let ops: Vec<Op> = (0..nops).map(|_| pick_op(rng, p.execution_cost_unit_loan)).collect();
+    run_reserve(p, t, free, abort, ops, report, idx, None)
+}
+
+/// Drives the real reserve with `ops` and returns the Coq case. `class` = (boundary class, expected
+/// outcome codes): the class is counted only if the observed outcomes are the expected ones.
+#[allow(clippy::too_many_arguments)]
+fn run_reserve(p: CostingParameters, t: TipSpecifier, free: Decimal, abort: bool, ops: Vec<Op>, report: &mut Report, idx: usize, class: Option<(&str, &[&str])>) -> String {
     let tcp = TransactionCostingParameters { tip: t, free_credit_in_xrd: free };
     let built = catch(std::panic::AssertUnwindSafe(|| SystemLoanFeeReserve::new(p, tcp.clone(), abort)));
     let head = format!("CReserve {} {} {} {} {}", shares_coq(), params_coq(&p), tip_coq(&t), dz(free), coq_bool(abort));
@@ -294,6 +303,9 @@ fn unit_case(rng: &mut Rng, report: &mut Report, idx: usize) -> String {
         Ok(r) => r,
         Err(_) => {
             report.count("unit_new_panicked");
+            if let Some((c, exp)) = class {
+                if exp == ["new_panics"] { report.count(c); } else { report.count("b_unexpected_outcome"); report.notes.push(format!("{}: new() panicked", c)); }
+            }
             let term = format!("{} false [] false None", head);
             report.case(&term, false);
             return term;
@@ -302,12 +314,11 @@ fn unit_case(rng: &mut Rng, report: &mut Report, idx: usize) -> String {
     let exact = tip_exact(&p, &t);
     report.count(if exact { "unit_params_tip_exact" } else { "unit_params_tip_inexact" });
     let start_balance = r.fee_balance();
-    let nops = rng.range(3, 45) as usize;
     let mut items = vec![];
     let mut panicked = false;
     let mut noncontingent = Decimal::ZERO;
-    for _ in 0..nops {
-        let o = pick_op(rng, p.execution_cost_unit_loan);
+    let mut codes: Vec<&'static str> = vec![];
+    for o in ops {
         let res = catch(std::panic::AssertUnwindSafe(|| apply(&mut r, &o)));
         match res {
             Ok(x) => {
@@ -316,6 +327,14 @@ fn unit_case(rng: &mut Rng, report: &mut Report, idx: usize) -> String {
                     Err(e) => err_coq(e),
                 };
                 report.count(&format!("unit_{}", out.trim_matches(|c| c == '(' || c == ')').replace(' ', "_")));
+                codes.push(match &x {
+                    Ok(()) => "ok",
+                    Err(FeeReserveError::InsufficientBalance { .. }) => "insufficient",
+                    Err(FeeReserveError::Overflow) => "overflow",
+                    Err(FeeReserveError::LimitExceeded { .. }) => "limit",
+                    Err(FeeReserveError::LoanRepaymentFailed { .. }) => "loan",
+                    Err(FeeReserveError::Abort(_)) => "abort",
+                });
                 if let (Op::LockFee(_, a, false), Ok(())) = (&o, &x) {
                     noncontingent = noncontingent.checked_add(*a).unwrap_or(noncontingent);
                 }
@@ -323,6 +342,7 @@ fn unit_case(rng: &mut Rng, report: &mut Report, idx: usize) -> String {
             }
             Err(_) => {
                 report.count("unit_OPanic");
+                codes.push("panic");
                 items.push(format!("({}, OPanic, 0%Z)", op_coq(&o)));
                 panicked = true;
                 break;
@@ -389,9 +409,125 @@ fn unit_case(rng: &mut Rng, report: &mut Report, idx: usize) -> String {
             }
         }
     };
+    if let Some((c, exp)) = class {
+        if codes.as_slice() == exp {
+            report.count(c);
+        } else {
+            report.count("b_unexpected_outcome");
+            report.notes.push(format!("{}: expected {:?} got {:?}", c, exp, codes));
+        }
+    }
     let term = format!("{} true {} {} {}", head, coq_list(items.iter().cloned()), repaid, fin);
     report.case(&term, items.len() > 3 && !panicked);
     term
+}
+
+// ------------------------------------------------------------------------------------------------
+// deterministic boundary family, unit level (identical for every seed)
+// ------------------------------------------------------------------------------------------------
+#[allow(clippy::too_many_arguments)]
+fn pp(exec_price: i128, exec_limit: u32, loan: u32, fin_price: i128, fin_limit: u32, usd: i128, state: i128, archive: i128) -> CostingParameters {
+    CostingParameters {
+        execution_cost_unit_price: attos(exec_price),
+        execution_cost_unit_limit: exec_limit,
+        execution_cost_unit_loan: loan,
+        finalization_cost_unit_price: attos(fin_price),
+        finalization_cost_unit_limit: fin_limit,
+        usd_price: attos(usd),
+        state_storage_price: attos(state),
+        archive_storage_price: attos(archive),
+    }
+}
+
+fn unit_boundary_family(report: &mut Report) -> Vec<String> {
+    use Op::*;
+    let one = 1_000_000_000_000_000_000i128;
+    // distinct prices everywhere: exec 10, fin 7, usd 2 XRD, state 3, archive 11 attos; loan 100 units = 1000 attos
+    let p0 = pp(10, 1000, 100, 7, 500, 2 * one, 3, 11);
+    let none = TipSpecifier::None;
+    let z = Decimal::ZERO;
+    let big = attos(one);
+    let mut out = vec![];
+    let mut idx = 0usize;
+    let mut run = |class: &str, p: CostingParameters, t: TipSpecifier, free: Decimal, abort: bool, ops: Vec<Op>, exp: &[&str], report: &mut Report, out: &mut Vec<String>| {
+        out.push(run_reserve(p, t, free, abort, ops, report, idx, Some((class, exp))));
+        idx += 1;
+    };
+    run("b_unit_limits_at_equality_and_plus_1", p0, none, z, false,
+        vec![LockFee(0, big, false), ConsumeExec(999), ConsumeExec(1), ConsumeExec(1), ConsumeFin(500), ConsumeFin(1), ConsumeExec(u32::MAX), ConsumeFin(u32::MAX), ConsumeExec(0), ConsumeFin(0)],
+        &["ok", "ok", "ok", "limit", "ok", "limit", "overflow", "overflow", "ok", "ok"], report, &mut out);
+    run("b_unit_balance_equals_amount_and_loan_off_by_one_atto", p0, none, z, false,
+        vec![ConsumeExec(99), ConsumeExec(2), ConsumeExec(1), LockFee(1, attos(999), false), RepayAll, LockFee(1, attos(1), false), RepayAll, RepayAll, ConsumeExec(1)],
+        &["ok", "insufficient", "loan", "ok", "loan", "ok", "ok", "ok", "insufficient"], report, &mut out);
+    run("b_unit_abort_when_loan_repaid", p0, none, z, true,
+        vec![LockFee(0, big, false), ConsumeExec(100), ConsumeExec(1), RepayAll],
+        &["ok", "abort", "ok", "abort"], report, &mut out);
+    run("b_unit_loan_threshold_minus_1_then_reached", p0, none, z, false,
+        vec![LockFee(0, big, false), ConsumeExec(99), ConsumeExec(1), ConsumeExec(1)],
+        &["ok", "ok", "ok", "ok"], report, &mut out);
+    run("b_unit_deferred_costs_all_kinds", p0, none, z, false,
+        vec![DeferExec(50), DeferFin(20), DeferStorage(false, 10), DeferStorage(true, 7), DeferStorage(false, 5), LockFee(0, big, false), RepayAll, RepayAll],
+        &["ok", "ok", "ok", "ok", "ok", "ok", "ok", "ok"], report, &mut out);
+    run("b_unit_deferred_over_limit_and_u32_overflow", p0, none, z, false,
+        vec![DeferExec(1001), LockFee(0, big, false), RepayAll, DeferExec(u32::MAX), DeferFin(501), RepayAll, DeferFin(u32::MAX)],
+        &["ok", "ok", "limit", "overflow", "ok", "limit", "overflow"], report, &mut out);
+    run("b_unit_deferred_storage_fails_half_way", p0, none, z, false,
+        vec![DeferStorage(false, 10), DeferStorage(true, 100), RepayAll, LockFee(0, attos(1000), false), RepayAll, LockFee(0, attos(130), false), RepayAll],
+        &["ok", "ok", "insufficient", "ok", "loan", "ok", "ok"], report, &mut out);
+    run("b_unit_royalty_kinds_and_aggregation", p0, none, z, false,
+        vec![LockFee(0, big, false), ConsumeRoyalty(0, z, 1), ConsumeRoyalty(2, z, 1), ConsumeRoyalty(0, attos(5), 1), ConsumeRoyalty(1, attos(7), 2), ConsumeRoyalty(0, attos(6), 1)],
+        &["ok", "ok", "ok", "ok", "ok", "ok"], report, &mut out);
+    run("b_unit_royalty_revert_then_negative_panics", p0, none, z, false,
+        vec![LockFee(0, big, false), ConsumeRoyalty(0, attos(5), 1), ConsumeRoyalty(1, attos(7), 2), RevertRoyalty, ConsumeRoyalty(0, attos(4), 2), ConsumeRoyalty(0, attos(-5), 1)],
+        &["ok", "ok", "ok", "ok", "ok", "panic"], report, &mut out);
+    run("b_unit_royalty_balance_equality", p0, none, z, false,
+        vec![ConsumeRoyalty(0, attos(1001), 0), ConsumeRoyalty(0, attos(1000), 0), ConsumeRoyalty(0, attos(1), 0)],
+        &["insufficient", "ok", "insufficient"], report, &mut out);
+    run("b_unit_contingent_lock_not_in_balance", p0, none, z, false,
+        vec![LockFee(0, big, true), ConsumeExec(100), LockFee(1, attos(1000), false), RepayAll],
+        &["ok", "loan", "ok", "ok"], report, &mut out);
+    run("b_unit_storage_types_sizes", p0, none, z, false,
+        vec![LockFee(0, big, false), ConsumeStorage(false, 1), ConsumeStorage(true, 1), ConsumeStorage(false, 0), ConsumeStorage(false, usize::MAX), DeferStorage(false, usize::MAX), DeferStorage(false, 1)],
+        &["ok", "ok", "ok", "ok", "insufficient", "ok", "panic"], report, &mut out);
+    // fee shares: network fees of 1,2,3,4,5,7 attos (25 % shares truncate), then with a tip
+    let p1 = pp(1, 1_000_000, 0, 1, 1_000_000, 0, 1, 1);
+    for n in [1u32, 2, 3, 4, 5, 7] {
+        run("b_unit_share_rounding_small_network_fee", p1, none, z, false, vec![LockFee(0, attos(1000), false), ConsumeExec(n)], &["ok", "ok"], report, &mut out);
+    }
+    run("b_unit_share_rounding_mixed_costs", p1, none, z, false,
+        vec![LockFee(0, attos(1000), false), ConsumeExec(1), ConsumeFin(1), ConsumeStorage(false, 1), ConsumeRoyalty(0, attos(3), 4)], &["ok", "ok", "ok", "ok", "ok"], report, &mut out);
+    let p2 = pp(2, 1_000_000, 0, 2, 1_000_000, 0, 1, 1);
+    run("b_unit_share_rounding_with_tip", p2, TipSpecifier::Percentage(50), z, false,
+        vec![LockFee(0, attos(1000), false), ConsumeExec(3), ConsumeFin(1)], &["ok", "ok", "ok"], report, &mut out);
+    // tip kinds and extremes
+    let p3 = pp(10_000, 1_000_000, 10, 10_000, 1_000_000, 0, 1, 1);
+    for (class, tip) in [
+        ("b_unit_tip_one_basis_point_exact", TipSpecifier::BasisPoints(1)),
+        ("b_unit_tip_percentage_1", TipSpecifier::Percentage(1)),
+        ("b_unit_tip_basis_points_100", TipSpecifier::BasisPoints(100)),
+        ("b_unit_tip_percentage_max", TipSpecifier::Percentage(u16::MAX)),
+        ("b_unit_tip_basis_points_max", TipSpecifier::BasisPoints(u32::MAX)),
+        ("b_unit_tip_zero_percentage", TipSpecifier::Percentage(0)),
+    ] {
+        run(class, p3, tip, z, false, vec![LockFee(0, big, false), ConsumeExec(100), ConsumeFin(33)], &["ok", "ok", "ok"], report, &mut out);
+    }
+    run("b_unit_tip_inexact_price", pp(3, 1_000_000, 10, 3, 1_000_000, 0, 1, 1), TipSpecifier::Percentage(33), z, false,
+        vec![LockFee(0, big, false), ConsumeExec(100), ConsumeFin(7)], &["ok", "ok", "ok"], report, &mut out);
+    // free credit
+    run("b_unit_free_credit_covers_loan", p0, none, attos(1000), false, vec![ConsumeExec(100), ConsumeExec(1)], &["ok", "insufficient"], report, &mut out);
+    // SystemLoanFeeReserve::new: every assertion and overflow
+    let neg = |f: &dyn Fn(&mut CostingParameters)| { let mut p = p0; f(&mut p); p };
+    run("b_unit_new_negative_price", neg(&|p| p.execution_cost_unit_price = attos(-1)), none, z, false, vec![], &["new_panics"], report, &mut out);
+    run("b_unit_new_negative_price", neg(&|p| p.finalization_cost_unit_price = attos(-1)), none, z, false, vec![], &["new_panics"], report, &mut out);
+    run("b_unit_new_negative_price", neg(&|p| p.usd_price = attos(-1)), none, z, false, vec![], &["new_panics"], report, &mut out);
+    run("b_unit_new_negative_price", neg(&|p| p.state_storage_price = attos(-1)), none, z, false, vec![], &["new_panics"], report, &mut out);
+    run("b_unit_new_negative_price", neg(&|p| p.archive_storage_price = attos(-1)), none, z, false, vec![], &["new_panics"], report, &mut out);
+    run("b_unit_new_negative_free_credit", p0, none, attos(-1), false, vec![], &["new_panics"], report, &mut out);
+    run("b_unit_new_zero_prices", pp(0, 10, 5, 0, 10, 0, 0, 0), none, z, false, vec![ConsumeExec(5), ConsumeFin(10), ConsumeStorage(true, 9)], &["ok", "ok", "ok"], report, &mut out);
+    run("b_unit_new_price_overflow", neg(&|p| p.execution_cost_unit_price = Decimal::MAX), TipSpecifier::Percentage(1), z, false, vec![], &["new_panics"], report, &mut out);
+    run("b_unit_new_loan_overflow", neg(&|p| { p.execution_cost_unit_price = Decimal::MAX; p.execution_cost_unit_loan = 2; }), none, z, false, vec![], &["new_panics"], report, &mut out);
+    run("b_unit_new_free_credit_overflow", p0, none, Decimal::MAX, false, vec![], &["new_panics"], report, &mut out);
+    out
 }
 
 // ------------------------------------------------------------------------------------------------
@@ -725,6 +861,94 @@ fn finding_case(ledger: &mut Ledger, accts: &[Acct], p: &CostingParameters, tip:
     r
 }
 
+/// Deterministic engine-level boundary family (identical for every seed): contingent / non-contingent
+/// lock patterns on success and failure, lock order, a lock smaller than the cost, free credit below and
+/// above the cost, odd unit prices (share rounding), royalties on success and on failure, and a lock of
+/// exactly the total cost (learnt from a dry run).
+fn engine_boundary_family(ledger: &mut Ledger, accts: &[Acct], report: &mut Report, cw: &mut CaseWriter, idx: &mut usize) {
+    let g = CostingParameters::babylon_genesis();
+    let mut odd = g;
+    odd.execution_cost_unit_price = attos(123_456_789);
+    odd.finalization_cost_unit_price = attos(50_000_000_003);
+    odd.state_storage_price = attos(95_367_430_000_001);
+    let l = |acct: usize, amount: Decimal, contingent: bool| Lock { acct, amount, contingent };
+    let none = TipSpecifier::None;
+    let cases: Vec<(&str, CostingParameters, TipSpecifier, Vec<Lock>, Decimal, bool, u64, u64)> = vec![
+        ("b_engine_contingent_last_success", g, none, vec![l(0, dec!(400), false), l(1, dec!(400), true)], Decimal::ZERO, false, 1, 0),
+        ("b_engine_contingent_last_failure", g, none, vec![l(0, dec!(400), false), l(1, dec!(400), true)], Decimal::ZERO, true, 1, 0),
+        ("b_engine_contingent_first_success", g, none, vec![l(1, dec!(400), true), l(0, dec!(400), false)], Decimal::ZERO, false, 1, 0),
+        ("b_engine_contingent_first_failure", g, none, vec![l(1, dec!(400), true), l(0, dec!(400), false)], Decimal::ZERO, true, 1, 0),
+        ("b_engine_small_contingent_used_up_on_success", g, none, vec![l(0, dec!(400), false), l(2, dec!("0.05"), true)], Decimal::ZERO, false, 1, 0),
+        ("b_engine_small_last_lock_used_up", g, none, vec![l(0, dec!(400), false), l(2, dec!("0.05"), false)], Decimal::ZERO, false, 1, 0),
+        ("b_engine_three_locks", g, TipSpecifier::Percentage(5), vec![l(2, dec!(400), false), l(1, dec!("0.05"), true), l(0, dec!("0.05"), false)], Decimal::ZERO, false, 2, 0),
+        ("b_engine_three_locks", g, TipSpecifier::Percentage(5), vec![l(2, dec!(400), false), l(1, dec!("0.05"), true), l(0, dec!("0.05"), false)], Decimal::ZERO, true, 2, 0),
+        ("b_engine_free_credit_unused", g, none, vec![l(0, dec!(400), false)], dec!("0.1"), false, 1, 0),
+        ("b_engine_free_credit_partly_used", g, none, vec![l(0, dec!("0.05"), false)], dec!(1000), false, 1, 0),
+        ("b_engine_free_credit_partly_used", g, none, vec![l(0, dec!("0.05"), false)], dec!(1000), true, 1, 0),
+        ("b_engine_odd_prices_share_rounding", odd, TipSpecifier::BasisPoints(33), vec![l(0, dec!(400), false)], Decimal::ZERO, false, 2, 0),
+        ("b_engine_odd_prices_share_rounding", odd, TipSpecifier::Percentage(7), vec![l(1, dec!(400), false), l(0, dec!(1), true)], Decimal::ZERO, true, 0, 0),
+        ("b_engine_tip_basis_points", g, TipSpecifier::BasisPoints(1), vec![l(0, dec!(400), false)], Decimal::ZERO, false, 0, 0),
+        ("b_engine_tip_percentage_large", g, TipSpecifier::Percentage(777), vec![l(0, dec!(4000), false)], Decimal::ZERO, false, 0, 0),
+        ("b_engine_royalty_success", g, none, vec![l(0, dec!(400), false)], Decimal::ZERO, false, 0, 2),
+        ("b_engine_royalty_reverted_on_failure", g, none, vec![l(0, dec!(400), false), l(1, dec!(10), true)], Decimal::ZERO, true, 0, 1),
+        ("b_engine_royalty_with_tip", g, TipSpecifier::BasisPoints(250), vec![l(1, dec!(400), false)], Decimal::ZERO, false, 1, 1),
+    ];
+    for (class, p, tip, locks, free, fail, work, roy) in cases {
+        if roy > 0 && ROYALTY_PKG.get().is_none() {
+            report.count(class); // artefact missing: recorded in the notes, the class cannot be produced
+            continue;
+        }
+        ROY_CALLS.with(|c| c.set(roy));
+        if let Some(term) = engine_case(ledger, accts, &p, &tip, &locks, free, fail, work, report, *idx) {
+            report.count(class);
+            cw.push(term);
+        } else {
+            report.count("b_unexpected_outcome");
+            report.notes.push(format!("{}: transaction not committed as planned", class));
+        }
+        *idx += 1;
+    }
+    ROY_CALLS.with(|c| c.set(0));
+    // lock exactly the total cost (exact parameters: deducted == total): refund 0, nothing missing
+    for (class, delta) in [("b_engine_lock_equals_total_cost", 0i128), ("b_engine_lock_one_atto_above_total_cost", 1)] {
+        let tip = TipSpecifier::Percentage(3);
+        let probe = vec![Lock { acct: 0, amount: dec!(500), contingent: false }];
+        let ex = build_tx(ledger, accts, &probe, false, &tip, 1);
+        let dry = ledger.execute_transaction_no_commit(ex, exec_config(&g));
+        let fs = &dry.fee_summary;
+        let total = fs.total_execution_cost_in_xrd + fs.total_finalization_cost_in_xrd + fs.total_tipping_cost_in_xrd + fs.total_storage_cost_in_xrd + fs.total_royalty_cost_in_xrd;
+        let locks = vec![Lock { acct: 0, amount: total + attos(delta), contingent: false }];
+        if let Some(term) = engine_case(ledger, accts, &g, &tip, &locks, Decimal::ZERO, false, 1, report, *idx) {
+            report.count(class);
+            cw.push(term);
+        } else {
+            report.count("b_unexpected_outcome");
+            report.notes.push(format!("{}: transaction not committed as planned", class));
+        }
+        *idx += 1;
+    }
+    // one atto less than the total cost cannot repay the loan: rejected, nothing taken
+    {
+        let tip = TipSpecifier::Percentage(3);
+        let probe = vec![Lock { acct: 0, amount: dec!(500), contingent: false }];
+        let ex = build_tx(ledger, accts, &probe, false, &tip, 1);
+        let dry = ledger.execute_transaction_no_commit(ex, exec_config(&g));
+        let fs = &dry.fee_summary;
+        let total = fs.total_execution_cost_in_xrd + fs.total_finalization_cost_in_xrd + fs.total_tipping_cost_in_xrd + fs.total_storage_cost_in_xrd + fs.total_royalty_cost_in_xrd;
+        let locks = vec![Lock { acct: 0, amount: total - attos(1), contingent: false }];
+        let before = report.distribution.get("engine_not_committed").cloned().unwrap_or(0);
+        let r = engine_case(ledger, accts, &g, &tip, &locks, Decimal::ZERO, false, 1, report, *idx);
+        let after = report.distribution.get("engine_not_committed").cloned().unwrap_or(0);
+        if r.is_none() && after == before + 1 {
+            report.count("b_engine_lock_one_atto_below_total_cost_rejected");
+        } else {
+            report.count("b_unexpected_outcome");
+            report.notes.push("lock one atto below the total cost was not rejected".into());
+        }
+        *idx += 1;
+    }
+}
+
 fn main() {
     let args = Args::parse();
     let mut report = Report::new(
@@ -740,6 +964,11 @@ fn main() {
     let n_engine = if thorough { (args.cases / 30).max(40) } else { (args.cases / 30).max(18) };
     let n_unit = args.cases.saturating_sub(n_engine);
     let mut idx = 0usize;
+    // deterministic boundary family (identical for every seed) before the random stream
+    for term in unit_boundary_family(&mut report) {
+        cw.push(term);
+        idx += 1;
+    }
     for _ in 0..n_unit {
         let mut rng = root.fork(idx as u64);
         let t = unit_case(&mut rng, &mut report, idx);
@@ -762,6 +991,7 @@ fn main() {
         }
         None => report.notes.push("royalty package artefacts not found: engine-level royalty cases skipped".into()),
     }
+    engine_boundary_family(&mut ledger, &accts, &mut report, &mut cw, &mut idx);
     let g = CostingParameters::babylon_genesis();
     // the finding witness: price 0.000000050000000001 XRD, tip 1 %
     {
@@ -821,6 +1051,33 @@ fn main() {
         }
         idx += 1;
     }
+    const REQUIRED: &[&str] = &[
+        "b_unit_limits_at_equality_and_plus_1", "b_unit_balance_equals_amount_and_loan_off_by_one_atto",
+        "b_unit_abort_when_loan_repaid", "b_unit_loan_threshold_minus_1_then_reached", "b_unit_deferred_costs_all_kinds",
+        "b_unit_deferred_over_limit_and_u32_overflow", "b_unit_deferred_storage_fails_half_way",
+        "b_unit_royalty_kinds_and_aggregation", "b_unit_royalty_revert_then_negative_panics",
+        "b_unit_royalty_balance_equality", "b_unit_contingent_lock_not_in_balance", "b_unit_storage_types_sizes",
+        "b_unit_share_rounding_small_network_fee", "b_unit_share_rounding_mixed_costs", "b_unit_share_rounding_with_tip",
+        "b_unit_tip_one_basis_point_exact", "b_unit_tip_percentage_1", "b_unit_tip_basis_points_100",
+        "b_unit_tip_percentage_max", "b_unit_tip_basis_points_max", "b_unit_tip_zero_percentage", "b_unit_tip_inexact_price",
+        "b_unit_free_credit_covers_loan", "b_unit_new_negative_price", "b_unit_new_negative_free_credit",
+        "b_unit_new_zero_prices", "b_unit_new_price_overflow", "b_unit_new_loan_overflow", "b_unit_new_free_credit_overflow",
+        "b_engine_contingent_last_success", "b_engine_contingent_last_failure", "b_engine_contingent_first_success",
+        "b_engine_contingent_first_failure", "b_engine_small_contingent_used_up_on_success", "b_engine_small_last_lock_used_up",
+        "b_engine_three_locks", "b_engine_free_credit_unused", "b_engine_free_credit_partly_used",
+        "b_engine_odd_prices_share_rounding", "b_engine_tip_basis_points", "b_engine_tip_percentage_large",
+        "b_engine_royalty_success", "b_engine_royalty_reverted_on_failure", "b_engine_royalty_with_tip",
+        "b_engine_lock_equals_total_cost", "b_engine_lock_one_atto_above_total_cost",
+        "b_engine_lock_one_atto_below_total_cost_rejected",
+    ];
+    for c in REQUIRED {
+        report.floor(c, 1);
+    }
+    report.floor("b_unit_share_rounding_small_network_fee", 6);
+    report.floor("b_unit_new_negative_price", 5);
+    report.floor("b_engine_three_locks", 2);
+    report.floor("b_engine_free_credit_partly_used", 2);
+    report.floor("b_engine_odd_prices_share_rounding", 2);
     report.floor("unit_OOk", n_unit as u64);
     report.floor("unit_OErr_InsufficientBalance", (n_unit as u64) / 20);
     report.floor("unit_params_tip_inexact", (n_unit as u64) / 20);
